@@ -9,6 +9,7 @@ Decided clauses:
       the first store to the object's pose and the first in-place write through an alias of it
   P4  paired writes: every function that stores _position also stores _orientation (and vice versa); the writers of either attribute
       are exactly the triaged set
+  P5  (E3-ORIGIN) the only arrays written in place by the pose operations are the pose paths of the object being updated
 Not decided: the padding arithmetic of path_padding_param over unbounded integers, edge-padding content, operation sequences.
 """
 from __future__ import annotations
@@ -209,6 +210,8 @@ def run(repo, res, tier):
     p2(repo, res)
     p3(repo, res)
     p4(repo, res)
+    import origin_rules
+    origin_rules.pose_mutations(repo, res, rule="P5")
     res.assumptions += ["SciPy/NumPy calls after the first in-place write do not raise (shapes are made consistent by path_padding before)",
                         "declared types: rotation : Rot[G->G], anchor : Pt[G], displacement : Vec[G]"]
     return {}
